@@ -36,6 +36,7 @@ Section ALS.
     | AlClear _ => Some ([], None)
     | AlSet _ i v => if i <? length l then Some (c11_set_nth l i v, h) else None
     | AlHold _ k => if k <? length l then Some (l, Some k) else None
+    | AlCopy _ => Some (l, None)                     (* a copy shows the same sequence *)
     end.
   Definition c11_als_observe (w : c11_als_world) : c11_al_obs T :=
     (length (fst w), fst w, match snd w with Some j => nth_error (fst w) j | None => None end).
@@ -105,6 +106,7 @@ Section LRUS.
     | LruPopBack _ => match l with [] => None | _ => Some (removelast l, LruVoid _) end
     | LruResize _ n => if n <=? length l then Some (firstn n l, LruVoid _) else None
     | LruClear _ => Some ([], LruVoid _)
+    | LruCopy _ => Some (l, LruVoid _)
     end.
   Definition c11_lrus_observe (nkeys : nat) (w : c11_lrus_world) : c11_lru_obs V :=
     let l := fst w in
